@@ -189,7 +189,7 @@ Inductive line :=
 | LErr (len : N) (msg : str)       (* {"error": msg}, msg non-empty *)
 | LGarbage (len : N).              (* not a JSON value *)
 Definition line_len (l : line) : N := match l with LMsg n _ => n | LErr n _ => n | LGarbage n => n end.
-Inductive cerr := EServer (msg : str) | EUnmarshal | ETooLong | EStatus.
+Inductive cerr := EServer (msg : str) | EUnmarshal | ETooLong | EStatus | ETransport.
 Inductive cres := COk | CFail (e : cerr).
 
 (** [checked]: the loop is followed by `return scanner.Err()` (the repaired client); without it the scanner's
@@ -209,13 +209,69 @@ Fixpoint client_stream (checked : bool) (max : N) (status : Z) (ls : list line) 
            end
   end.
 
+(** *** transport faults: the reader sees a prefix of the body, cut anywhere, and then a read error (the end-of-body
+    marker of the chunked / Content-Length framing never arrives).  [ls] are the lines received completely (with their
+    newline); the cut point says what follows them.  bufio.Scanner hands the unterminated rest to the loop as a last
+    token (split is called with atEOF on any read error) and remembers the read error for Err(). *)
+Inductive cutpoint :=
+| CutNone                      (* the whole body and its end marker arrived *)
+| CutBetween                   (* cut right after a newline (or: everything arrived but the end marker) *)
+| CutInside (m : N)            (* m bytes of the next line, a proper prefix of its content: not a JSON value *)
+| CutBeforeNewline (l : line). (* the whole content of the next line, its newline missing *)
+
+Definition cut_tail (checked : bool) (max : N) (status : Z) (c : cutpoint) : list line * cres :=
+  let lost := if checked then CFail ETransport else COk in
+  match c with
+  | CutNone => ([], COk)
+  | CutBetween => ([], lost)
+  | CutInside m => if (max <=? m)%N then ([], if checked then CFail ETooLong else COk) else ([], CFail EUnmarshal)
+  | CutBeforeNewline l =>
+      if (max <=? line_len l)%N then ([], if checked then CFail ETooLong else COk)
+      else match l with
+           | LGarbage _ => ([], CFail EUnmarshal)
+           | LErr _ m => ([], CFail (EServer m))
+           | LMsg _ _ => if (400 <=? status)%Z then ([], CFail EStatus) else ([l], lost)
+           end
+  end.
+
+Fixpoint client_stream_cut (checked : bool) (max : N) (status : Z) (ls : list line) (c : cutpoint) : list line * cres :=
+  match ls with
+  | [] => cut_tail checked max status c
+  | l :: rest =>
+      if (max <=? line_len l)%N then ([], if checked then CFail ETooLong else COk)
+      else match l with
+           | LGarbage _ => ([], CFail EUnmarshal)
+           | LErr _ m => ([], CFail (EServer m))
+           | LMsg _ _ =>
+               if (400 <=? status)%Z then ([], CFail EStatus)
+               else let '(d, r) := client_stream_cut checked max status rest c in (l :: d, r)
+           end
+  end.
+
+Definition strip (l : list call) : list (str * str) := map (fun c => (cname c, cargs c)) l.
+
+(** ** tool-call deltas: an OpenAI client merges the tool_calls of the streamed chunks by their index
+    (name and arguments of deltas with the same index are concatenated; a new index starts a new call) *)
+Fixpoint merge_call (acc : list (nat * (str * str))) (c : call) : list (nat * (str * str)) :=
+  match acc with
+  | [] => [(cidx c, (cname c, cargs c))]
+  | (i, (n, a)) :: t =>
+      if Nat.eqb i (cidx c) then (i, (n ++ cname c, a ++ cargs c)) :: t else (i, (n, a)) :: merge_call t c
+  end.
+Definition reassemble (l : list call) : list (str * str) := map snd (fold_left merge_call l []).
+Definition sse_calls (l : list sse) : list call :=
+  flat_map (fun e => match e with SChunk _ cl _ => cl | _ => [] end) l.
+Definition rec_calls (l : list nrec) : list call :=
+  flat_map (fun r => match r with Msg _ cl _ _ _ _ => cl | ErrRec _ => [] end) l.
+Definition v1_calls (b : Z * v1body) : list (str * str) :=
+  match snd b with VCompletion _ cl _ _ _ => strip cl | VError _ => [] end.
+
 (** ** results: what a client ends up with *)
 Inductive result :=
 | ROk (text : str) (calls : list (str * str)) (rs : str) (c : counts) (ctx : option str)
 | RFail (msg : str)
 | RUnfinished (text : str) (calls : list (str * str)).
 
-Definition strip (l : list call) : list (str * str) := map (fun c => (cname c, cargs c)) l.
 
 (** concatenate a stream up to its first terminal record *)
 Fixpoint stream_result_from (text : str) (calls : list (str * str)) (recs : list nrec) : result :=
